@@ -27,6 +27,7 @@ struct vf_config {
 	const int *script;    /* scripted schedule (tids; negative = tick), or NULL */
 	int script_len;
 	int fail_malloc_at;   /* fail the k-th (1-based) malloc performed by nsync code; 0 = never */
+	int fail_malloc_from; /* fail EVERY malloc from the k-th on (a persistent shortage); 0 = never */
 	int futex_fault_prob; /* per-mille probability of an early futex return (futex build) */
 };
 
